@@ -242,8 +242,14 @@ def _dij_case(args):
     out = {'evaluations': 0, 'nontrivial': 0, 'failures': []}
     for sy in range(h):
         for sx in range(w):
-            d = dijkstra(layout, (sy, sx))
             out['evaluations'] += 1
+            try:
+                d = dijkstra(layout, (sy, sx))
+            except Exception as e:
+                if len(out['failures']) < 2:
+                    out['failures'].append({'what': 'dijkstra raised', 'exception': repr(e)[:200], 'layout': layout,
+                                            'source': [sy, sx]})
+                continue
             ref = {(sy, sx): 0}
             q = deque([(sy, sx)])
             while q:
